@@ -28,7 +28,7 @@ ASSUMPTIONS = ['2-D arrays with their own documented meaning are exempt (h2e, e2
                'if every form raises the case is not judged here (another property owns that defect)']
 MIN_EVALS = {'forms': {'quick': 4500, 'thorough': 55000}, 'length': {'quick': 7000, 'thorough': 90000},
              'units': {'quick': 250, 'thorough': 3000}, 'options': {'quick': 1300, 'thorough': 16000},
-             'triple': {'quick': 30, 'thorough': 400}, 'scalars': {'quick': 600, 'thorough': 12000}}
+             'triple': {'quick': 30, 'thorough': 400}, 'scalars': {'quick': 600, 'thorough': 12000}, 'keywords': {'quick': 1200, 'thorough': 30000}}
 ENTRIES = cat.BASE + cat.CLASSES
 BAD_ORDERS = ['zxy', 'XYZ', '', 'yzx', 'zyz']
 # the container forms again, as objects a caller may hold: frozen, non-contiguous and reversed-stride arrays, lists of NumPy scalars
@@ -348,7 +348,61 @@ def run_scalars(ctx, p):
         ctx.nontrivial('scalars', e['name'], str(pos), form, v)
 
 
-RUNNERS = {'forms': run_forms, 'length': run_length, 'triple': run_triple, 'units': run_units, 'options': run_options, 'scalars': run_scalars}
+def run_keywords(ctx, p):
+    """the same call with every argument spelt by keyword (parameter names from the signature) and with the options spelt
+    positionally in signature order: the spelling does not change the answer"""
+    import inspect
+    e = entry_of(p)
+    if 'random' in e['tags']:
+        return
+    f = cat.resolve(e['target'])
+    recv = recv_of(p)
+    args, kwargs = list(p['args']), dict(p['kwargs'])
+    try:
+        sigf = inspect.signature(f)
+        params = list(sigf.parameters.values())
+        if e['target'].startswith('m:'):
+            params = params[1:]
+        if any(q.kind in (q.VAR_POSITIONAL, q.VAR_KEYWORD, q.POSITIONAL_ONLY) for q in params):
+            ctx.ood('keywords')
+            return
+        names = [q.name for q in params]
+        if len(args) > len(names) or any(k not in names for k in kwargs):
+            ctx.ood('keywords')
+            return
+    except (TypeError, ValueError):
+        ctx.ood('keywords')
+        return
+    base_res = attempt(e, args, kwargs, recv)
+    allkw = dict(zip(names, args), **kwargs)
+    sig = dict(api=e['name'])
+    spellings = {'all_keywords': ([], allkw)}
+    # options positionally, as far as the signature order allows without skipping a parameter
+    pos = list(args)
+    kinds_ = {q.name: q.kind for q in params}
+    for nm in names[len(args):]:
+        if nm in kwargs and kinds_[nm] == inspect.Parameter.POSITIONAL_OR_KEYWORD:
+            pos.append(kwargs[nm])
+        else:
+            break
+    if len(pos) > len(args):
+        spellings['options_positional'] = (pos, {k: v for k, v in kwargs.items() if k not in names[len(args):len(pos)]})
+    for sp, (a_, k_) in spellings.items():
+        o = attempt(e, a_, k_, recv_of(p))
+        if o[0] != base_res[0]:
+            ctx.bad('keywords', dict(sig, kind='one_spelling_raises', spelling=sp, exc=type(o[1] if o[0] == 'exc' else base_res[1]).__name__),
+                    '%s: as catalogued -> %s; %s %s %s -> %s' % (e['name'], core.short(base_res[1], 150), sp, core.short(a_, 150), sorted(k_), core.short(o[1], 150)))
+            continue
+        if o[0] == 'exc':
+            ctx.ood('keywords')
+            continue
+        ctx.judge('keywords', same(o[1], base_res[1]), dict(sig, kind='spelling_changes_result', spelling=sp),
+                  lambda: '%s: %s gives %s, the catalogued spelling gives %s' % (e['name'], sp, core.short(getattr(o[1], 'data', o[1]), 200), core.short(getattr(base_res[1], 'data', base_res[1]), 200)))
+        ctx.cell('keywords', e['name'], sp)
+        ctx.nontrivial('keywords', e['name'], sp)
+
+
+RUNNERS = {'keywords': run_keywords, 'forms': run_forms, 'length': run_length, 'triple': run_triple, 'units': run_units, 'options': run_options, 'scalars': run_scalars}
 
 
 def REACH():
@@ -388,6 +442,7 @@ def run(ctx):
             for ps in [i_ for i_, s_ in enumerate(e['args']) if s_[0] in ('A', 'S', 'SPOS')]:
                 v_ = int(rng.integers(1, 7)) * (1 if e['args'][ps][0] == 'SPOS' else int(gen.sign(rng)))
                 drive(RUNNERS, ctx, 'scalars', dict(base, pos=ps, value=v_))
+            drive(RUNNERS, ctx, 'keywords', base)
             if any(t.startswith('triple') for t in e['tags']):
                 drive(RUNNERS, ctx, 'triple', base)
             if any(t.startswith('unit_') for t in e['tags']):
